@@ -24,7 +24,8 @@ PREFIXES = ["", "/a", "/a/b", "/ab", "/b", "/é"]
 PATHS = ["", "/", "/a", "/a/", "/ab", "/abc", "/a/b", "/a/b/", "/a/b/c", "/a/bc", "/b/a", "a", "/é", "/é/ü", "/éa", "/a//b", "/a/x\ny", "/x\n"]
 ROOTS = ["", "/r", "/r/", "/"]
 HOST_PATTERNS = [r"a\.com", r"(www\.)?a\.com", r"a.com", r".*", r"a\.com|b\.com", r"caf.\.com", r"(\w+)\.\1\.com", r"(?P<t>x)?a\.com(?(t)y|)"]  # the last two: a numbered back-reference, a named group with a conditional
-HOSTS = ["eu.eu.com", "eu.us.com", "xa.comy", "xa.com", "a.comy", "a.com", "www.a.com", "aXcom", "a.com.evil", "a.com:80", "A.COM", "", None, "a.com\n", "b.com", "b.com.evil", "www.a.comx", "caf\xe9.com", "caf\xc3\xa9.com"]
+LONGW = "a" * 130
+HOSTS = [LONGW + "." + LONGW + ".com", LONGW + ".b" + LONGW[1:] + ".com", "x" * 300, "eu.eu.com", "eu.us.com", "xa.comy", "xa.com", "a.comy", "a.com", "www.a.com", "aXcom", "a.com.evil", "a.com:80", "A.COM", "", None, "a.com\n", "b.com", "b.com.evil", "www.a.comx", "caf\xe9.com", "caf\xc3\xa9.com"]
 
 
 def host_ref(pattern, h):
@@ -58,7 +59,7 @@ def leaf(iface, ident, log):
                 return 0
 
             def __call__(self, environ, start_response):
-                dec = lambda v: v.encode("latin-1").decode("utf-8")  # WSGI-native strings -> text
+                dec = lambda v: v.encode("latin-1").decode("utf-8", "surrogateescape")  # WSGI-native strings -> text (undecodable bytes kept)
                 log.append((ident, dec(environ.get("SCRIPT_NAME", "")), dec(environ.get("PATH_INFO", ""))))
                 return W.PlainTextResponse(json.dumps(ident))(environ, start_response)
         return App()
@@ -122,12 +123,20 @@ def ref_dispatch(tree, root, path, ident=()):
     return None
 
 
-def request(iface, app, root, path, host=None, log=None):
+RAW_ROOT = "/dep\xf4t/a\xff"  # ISO-8859-1 "/depôt" and a stray 0xFF, as the WSGI-native string of those bytes
+
+
+def request(iface, app, root, path, host=None, log=None, info=None):
     headers = [] if host is None else [("Host", host)]
     # without a Host header the gateway still knows the server's own name: it must not stand in for the header
     req = SV.AReq(path=path, root=root, headers=headers, server=("a.com", 80) if host in (None, "") else ("testserver", 80))
     if iface == "wsgi":
         env = SV.to_environ(req)
+        if root == "/r/" and len(path) % 3 == 0:
+            # the server's (or an outer, foreign mount's) root path is not UTF-8: it is carried along byte for byte
+            env["SCRIPT_NAME"] = RAW_ROOT
+            if info is not None:
+                info["root"] = RAW_ROOT.encode("latin-1").decode("utf-8", "surrogateescape")
         # PEP 3333: SCRIPT_NAME and PATH_INFO may be left out when they are empty
         if root == "" and len(path) % 2 == 0:
             env.pop("SCRIPT_NAME", None)
@@ -249,9 +258,10 @@ def run_shard(desc, tier):
 
 def judge_mount(r, iface, app, tree, log, root, path, shim=False):
     del log[:]
-    res, untouched = request(iface, app, root, path)
+    info = {}
+    res, untouched = request(iface, app, root, path, info=info)
     r.count("evaluations")
-    exp = ref_dispatch(tree, root, path)
+    exp = ref_dispatch(tree, info.get("root", root), path)
     w = {"kind": "mount", "iface": iface, "tree": tree, "root": root, "path": path, "shim": shim}
     if res.exc is not None:
         r.violation(f"mount-exception:{type(res.exc).__name__}", w, f"{iface} Subpaths {tree} on root={root!r} path={path!r} raised {res.exc!r:.150}")
